@@ -7,9 +7,10 @@
 (*   "mc"      any epoch change / any connection at every step (exhaustive check)    *)
 (*   "tamper"  conn (fresh) ; conn offering the saved session with every tamper kind *)
 (*   "config"  conn (fresh) ; one configuration change ; conn offering the session   *)
-(*   "policy"  conn (fresh, SNI a|b) ; change of the global client-auth policy or of  *)
-(*             the per-SNI rule (reload) or none ; conn offering the session on SNI   *)
-(*             a|b (other VIP/SNI sharing key and cache)                              *)
+(*   "policy"  conn (fresh, SNI a|b) ; change of the global client-auth policy, of    *)
+(*             the per-SNI rule (reload), of the client CA, or none ; conn offering   *)
+(*             the session on SNI a|b (other VIP/SNI sharing key and cache) with the  *)
+(*             same certificate, the other CA's, or a forgery                         *)
 (*   "file"    steps are read from histories.ndjson (seeded sampling, TicketGen)     *)
 EXTENDS Ticket
 
@@ -27,32 +28,36 @@ Thorough == Tier = "thorough"
 Keys == {1, 2}
 CacheGens == {0, 1, 2}
 SvMaxes == {0, 11} \cup (IF Thorough THEN {10} ELSE {})
-SvSuites == {<<"EG", "EC">>, <<"EC">>, <<"EG">>, <<"RC", "EC">>, <<"CH", "EG", "EC">>}
+SvSuites == {<<"EG", "EC">>, <<"EC">>, <<"CH", "EG", "EC">>} \cup (IF Thorough THEN {<<"EG">>, <<"RC", "EC">>} ELSE {})
 Auths == {"none", "request", "require"}
 \* per-SNI rules (Config.ServerRule): none, or a rule for SNI "a" raising exactly one setting / all
 TRule(g, ca, ch) == [on |-> TRUE, sni |-> "a", grade |-> g, np |-> <<>>, clientauth |-> ca, chacha |-> ch]
 Rules == {NoRule, TRule("C", TRUE, FALSE), TRule("C", FALSE, TRUE), TRule("A+", FALSE, FALSE)} \cup
-         (IF Thorough THEN {TRule("C", FALSE, FALSE), TRule("A+", TRUE, TRUE)} ELSE {})
-Epochs == [key : Keys, tickets : BOOLEAN, cache : CacheGens, max : SvMaxes, suites : SvSuites, auth : Auths, rule : Rules]
+         (IF Thorough THEN {TRule("A+", TRUE, TRUE)} ELSE {})
+CAs == {1, 2}
+Epochs == [key : Keys, tickets : BOOLEAN, cache : CacheGens, max : SvMaxes, suites : SvSuites, auth : Auths, rule : Rules, ca : CAs]
 
-ClMaxes == {11, 12} \cup (IF Thorough THEN {10} ELSE {})
-GoSuites == {<<"EG", "EC", "RC">>, <<"EC", "RC">>, <<"EG">>, <<"RC">>, <<"EG", "CH", "EC">>}  \* (server preference decides)
+ClMaxes == {11, 12}      \* (TLS 1.0 sessions: through the server's maximum, SvMaxes, in the thorough tier)
+GoSuites == {<<"EG", "EC", "RC">>, <<"EC", "RC">>, <<"EG", "CH", "EC">>} \cup      \* (server preference decides)
+            (IF Thorough THEN {<<"RC">>} ELSE {})
 RawSuites == GoSuites \cup {<<"RC", "EC", "EG">>}
+\* exhaustive check, quick: CA "B" certificates only matter through "trusted or not" - A / fake / none suffice
+McCerts == IF Thorough THEN CertClasses ELSE {"none", "A", "fake"}
 Snis == {"a", "b"}
-Clients == [kind : {"go"}, max : ClMaxes, suites : GoSuites, cert : BOOLEAN, noticket : {FALSE}, sni : Snis] \cup
-           [kind : {"raw"}, max : ClMaxes, suites : RawSuites, cert : BOOLEAN, noticket : BOOLEAN, sni : Snis]
+Clients == [kind : {"go"}, max : ClMaxes, suites : GoSuites, cert : McCerts, noticket : {FALSE}, sni : Snis] \cup
+           [kind : {"raw"}, max : ClMaxes, suites : RawSuites, cert : McCerts, noticket : BOOLEAN, sni : Snis]
 
-Epoch0 == [key |-> 1, tickets |-> TRUE, cache |-> 1, max |-> 0, suites |-> <<"EG", "EC">>, auth |-> "none", rule |-> NoRule]
+Epoch0 == [key |-> 1, tickets |-> TRUE, cache |-> 1, max |-> 0, suites |-> <<"EG", "EC">>, auth |-> "none", rule |-> NoRule, ca |-> 1]
 \* epochs that differ from x in exactly one dimension
-OneChange(x) == {y \in Epochs : Cardinality({d \in {"key", "tickets", "cache", "max", "suites", "auth", "rule"} : x[d] # y[d]}) = 1}
+OneChange(x) == {y \in Epochs : Cardinality({d \in {"key", "tickets", "cache", "max", "suites", "auth", "rule", "ca"} : x[d] # y[d]}) = 1}
 
-StdGo == [kind |-> "go", max |-> 12, suites |-> <<"EG", "EC", "RC">>, cert |-> TRUE, noticket |-> FALSE, sni |-> "a"]
+StdGo == [kind |-> "go", max |-> 12, suites |-> <<"EG", "EC", "RC">>, cert |-> "A", noticket |-> FALSE, sni |-> "a"]
 AuthRule == TRule("C", TRUE, FALSE)
 \* the two ways of requiring a client certificate: globally, or by the rule of the connection's SNI
 RequireGlobal == [Epoch0 EXCEPT !.auth = "require"]
 RequireByRule == [Epoch0 EXCEPT !.rule = AuthRule]
 PolicyDims(x) == {y \in Epochs : /\ \A d \in {"key", "tickets", "cache", "max", "suites"} : x[d] = y[d]
-                                  /\ (x.auth = y.auth \/ x.rule = y.rule)}
+                                  /\ Cardinality({f \in {"auth", "rule", "ca"} : x[f] # y[f]}) <= 1}
 StdRawT == [StdGo EXCEPT !.kind = "raw"]
 StdRawS == [StdGo EXCEPT !.kind = "raw", !.noticket = TRUE]
 
@@ -90,17 +95,18 @@ Inputs ==
         ELSE {}
     [] Preset = "config" ->
         IF n = 0 THEN {ConnIn([c EXCEPT !.max = m, !.cert = ct], "none", "none") :
-                          c \in {StdGo, StdRawT, StdRawS}, m \in {11, 12}, ct \in BOOLEAN}
+                          c \in {StdGo, StdRawT, StdRawS}, m \in {11, 12}, ct \in {"none", "A"}}
         ELSE IF n = 1 THEN {EpochIn(x) : x \in OneChange(e) \cup {e}}
         ELSE IF n = 2 THEN {ConnIn(c, "saved", "none") :
                               c \in {x \in Clients : x.kind = last.kind /\ x.noticket = last.noticket}}
         ELSE {}
     [] Preset = "policy" ->
-        IF n = 0 THEN {ConnIn([c EXCEPT !.cert = ct, !.sni = sn, !.suites = su], "none", "none") :
-                          c \in {StdGo, StdRawT, StdRawS}, ct \in BOOLEAN, sn \in Snis,
-                          su \in {<<"EG", "EC", "RC">>, <<"EG", "CH", "EC">>}}
+        IF n = 0 THEN {ConnIn([c EXCEPT !.cert = ct, !.sni = sn, !.suites = <<"EG", "CH", "EC">>], "none", "none") :
+                          c \in {StdGo, StdRawT, StdRawS}, ct \in {"none", "A"}, sn \in Snis}
         ELSE IF n = 1 THEN {EpochIn(x) : x \in PolicyDims(e)}
-        ELSE IF n = 2 THEN {ConnIn([last.cl EXCEPT !.sni = sn], "saved", "none") : sn \in Snis}
+        \* the offer comes with the same certificate, with the other CA's, or with a forgery
+        ELSE IF n = 2 THEN {ConnIn([last.cl EXCEPT !.sni = sn, !.cert = ct], "saved", "none") :
+                              sn \in Snis, ct \in {last.cl.cert, "B", "fake"}}
         ELSE {}
     [] OTHER -> {}
 
